@@ -30,7 +30,7 @@ ASSUMPTIONS = [
     '`require "x"` without parentheses is not required to be supported and is not generated',
 ]
 EXHAUSTIVE = {'quick': False, 'thorough': False}
-KNOWN_KEYS = {'gameloop-strip-reserialise', 'package-no-final-newline', 'require-nested-in-call', 'gameloop-dotted-name-stripped'}
+KNOWN_KEYS = {'package-name-backslash', 'gameloop-strip-reserialise', 'package-no-final-newline', 'require-nested-in-call', 'gameloop-dotted-name-stripped'}
 GAME_LOOP = (b'_init', b'_update', b'_update60', b'_draw')
 HEADER = [b'package', b'.', b'_c', b'[', None, b']', b'=', b'function', b'(', b')']
 
@@ -71,9 +71,15 @@ def gameloop_piece(rng):
     return b'function ' + name + b'(a,b) local f=function() return 1 end return f end\n', name
 
 
-def require_piece(rng, name, opt):
+def lua_string(rng, name):
+    """A Lua string literal denoting exactly the bytes `name`."""
     q = rng.choice((b'"', b"'"))
-    arg = q + name + q
+    body = name.replace(b'\\', b'\\\\').replace(q, b'\\' + q)
+    return q + body + q
+
+
+def require_piece(rng, name, opt):
+    arg = lua_string(rng, name)
     if opt:
         arg += rng.choice((b',{use_game_loop=true}', b', { use_game_loop = true }'))
     call = b'require(' + arg + b')'
@@ -110,6 +116,10 @@ def build_graph(rng, root):
         k = Pkg()
         k.file_dir = 'lib' if (subdir and i % 2 == 1) else ''
         k.base = 'pkg%d' % i
+        if rng.random() < 0.15:
+            # names that need care when they are written into the package table as a string literal
+            k.base = rng.choice(('pk"q%d', "pk'q%d", 'pk\\b%d', 'pk -%d', 'pk\\n%d')) % i
+            feats.add('package_name_special_chars')
         k.opt = rng.random() < 0.25
         k.deps = []
         pkgs.append(k)
@@ -359,7 +369,7 @@ def judge(ctx, g, root, case):
         missing = [n for n in want_names if n not in names]
         dup = sorted({n for n in names if names.count(n) > 1})
         extra = [n for n in names if n not in expected]
-        key = 'require-nested-in-call' if missing and not dup and not extra and (
+        key = 'package-name-backslash' if (missing and all(b'\\' in n for n in missing)) else 'require-nested-in-call' if missing and not dup and not extra and (
             feats & {'require_form:callarg', 'require_form:chain', 'require_form:index'}) else None
         ctx.violation('package table defines %s; required names are %s (missing %s, duplicated %s, unexpected %s)' % (
             names, want_names, missing, dup, extra), case, key=key)
@@ -515,7 +525,7 @@ def gates(m, tier):
     missed = []
     for k in ('cycle', 'shared_dependency', 'gameloop_first', 'gameloop_middle', 'gameloop_last', 'gameloop_stripped', 'gameloop_kept',
               'use_game_loop_true', 'use_game_loop_false', 'package_no_final_newline', 'final_return', 'package_in_subdir',
-              'found_via_load_path', 'lua_path:default', 'lua_path:arg_rel', 'lua_path:arg_abs', 'lua_path:env', 'nested_gameloop_function',
+              'found_via_load_path', 'package_name_special_chars', 'lua_path:default', 'lua_path:arg_rel', 'lua_path:arg_abs', 'lua_path:env', 'nested_gameloop_function',
               'require_form:stmt', 'require_form:assign', 'require_form:local', 'require_form:field', 'require_form:callarg',
               'require_form:chain', 'require_form:nestedfn', 'error:missing', 'error:noargs', 'error:threeargs', 'error:nonstring',
               'error:badoption'):
